@@ -57,6 +57,12 @@ def seq_of(rng, cls, L):
         x = rng.choice([0.0, 0.0, 1.0, -1.0, 0.05], size=L)
     elif cls == "plateau":
         x = np.concatenate([np.full(L // 2, 1.0), np.full(L - L // 2, 5.0)]) + rng.normal(size=L) * 1e-3
+    elif cls == "nan":
+        # a diverged metric: NaN evaluations among ordinary ones (a NaN deviation is not below any tolerance)
+        x = rng.normal(size=L)
+        x[rng.random(size=L) < 0.4] = float("nan")
+        if not np.isnan(x).any():
+            x[int(rng.integers(0, L))] = float("nan")
     elif cls == "fine":
         # increments far below single precision: values must be compared as the doubles they are
         x = float(rng.choice([1.0, 1000.0, -3.0])) * (1.0 + 1e-10 * np.arange(L) * (1 + rng.integers(0, 3)))
@@ -69,7 +75,7 @@ def cases(tier, seed):
     out = []
     rng = np_rng(ID, seed, "cases")
     n = 600 if tier == "quick" else 60000
-    classes = ["monotone", "geometric", "oscillating", "constant", "zeros", "plateau", "random", "fine"]
+    classes = ["monotone", "geometric", "oscillating", "constant", "zeros", "plateau", "random", "fine", "nan"]
     for i in range(n):
         L = int(rng.integers(2, 13))
         cls = classes[i % len(classes)]
@@ -97,6 +103,8 @@ def cases(tier, seed):
 
 def deviation(crit, cur, ref, var_ref):
     """extended-real deviation; returns ('val', x) or ('undefined', None)"""
+    if cur != cur or ref != ref:
+        return "nan", None  # a NaN evaluation has no deviation "below the tolerance": no stop
     d = abs(ref - cur)
     if crit == "absolute":
         return "val", d
@@ -178,7 +186,9 @@ def run_case(case, ctx):
         if e % ps == 0:
             if len(E) >= p + 1:
                 kind_, dv = deviation(crit, E[-1][0], E[-1 - p][0], E[-1 - p][1])
-                if kind_ == "undefined" or (dv is not None and math.isnan(dv)):
+                if kind_ == "nan":
+                    decisions.append((e, "continue"))
+                elif kind_ == "undefined" or (dv is not None and math.isnan(dv)):
                     decisions.append((e, "either"))
                 else:
                     decisions.append((e, "stop" if dv < tol else "continue"))
@@ -261,6 +271,8 @@ def run_case(case, ctx):
                     skip2 = True  # F9 territory (zero reference): not part of this scenario
                     break
                 kind_, dv = deviation(crit, E2[-1][0], E2[-1 - p][0], E2[-1 - p][1])
+                if kind_ == "nan":
+                    continue
                 if kind_ == "undefined" or (dv is not None and math.isnan(dv)):
                     skip2 = True
                     break
